@@ -360,9 +360,57 @@ def apply_icodes(out, rng, prob=0.3):
     return out
 
 
+def _blocks(items):
+    blocks, block, seg = [], None, 0
+    for it in items:
+        if not isinstance(it, dict):
+            if isinstance(it, str) and it.startswith("TER"):
+                seg += 1
+            continue
+        b = (it["chain"], it["resi"], it["icode"], seg)
+        if b != block:
+            block = b
+            blocks.append((seg, []))
+        blocks[-1][1].append(it)
+    return blocks
+
+
+def apply_gap(out, rng):
+    """Delete one or two consecutive interior residues of a chain (same chain id, numbering keeps the hole, no TER):
+    the unresolved-loop pattern of real structures.  The neighbours stay complete interior residues."""
+    items, truth = out["items"], out["truth"]
+    blocks = _blocks(items)
+    if len(blocks) != len(truth):
+        return out
+
+    def inner(k):
+        return 0 < k < len(truth) - 1 and all(truth[j]["kind"] == "aa" and truth[j]["chain"] == truth[k]["chain"] and
+                                              blocks[j][0] == blocks[k][0] and not truth[j].get("cyclic")
+                                              for j in (k - 1, k, k + 1)) and truth[k]["pos"] == "I"
+    cands = [k for k in range(len(truth)) if inner(k)]
+    if not cands:
+        return out
+    k = rng.choice(cands)
+    drop = [k]
+    if rng.random() < 0.4 and inner(k + 1):
+        drop.append(k + 1)
+    dead = {id(a) for j in drop for a in blocks[j][1]}
+    items[:] = [it for it in items if not (isinstance(it, dict) and id(it) in dead)]
+    truth[drop[0] - 1]["gap_after"] = True
+    truth[drop[-1] + 1]["gap_before"] = True
+    for j in reversed(drop):
+        del truth[j]
+    pdbfmt.renumber(items)
+    out["text"] = pdbfmt.to_text(items)
+    out.setdefault("meta", {})["gap"] = len(drop)
+    return out
+
+
 def materialise(spec):
     out = _materialise(spec)
     p = spec.get("p") or {}
+    if p.get("gap_prob") and "items" in out and random.Random(spec["seed"] + 15).random() < p["gap_prob"]:
+        apply_gap(out, random.Random(spec["seed"] + 16))
     if p.get("icode_prob") and random.Random(spec["seed"] + 17).random() < p["icode_prob"]:
         apply_icodes(out, random.Random(spec["seed"] + 18))
     r19 = random.Random(spec["seed"] + 19)
